@@ -7,6 +7,7 @@ CONSTANTS
   EofDecodes = TRUE
   KeepBufOnPending = TRUE
   SurfaceIoErr = TRUE
+  EofFastPath = FALSE
   Strict = TRUE
 SPECIFICATION TSpec
 INVARIANTS C13_Frames C13_Prefix C13_TerminalLast C13_NoPanic
